@@ -63,4 +63,20 @@ func hasSuffix(s, p string) bool { return len(s) >= len(p) && s[len(s)-len(p):] 
 //@   pure
 //@   ensures spec: r == hasSuffix(s, suffix)
 
+// strings.Cut with a one-byte separator.
+//@ extern func strings.Cut(s string, sep string) (before string, after string, found bool)
+//@   pure
+//@   ensures hit:  len(sep) == 1 && indexB(s, sep[0]) >= 0 ==> found && before == s[:indexB(s, sep[0])] && after == s[indexB(s, sep[0])+1:]
+//@   ensures miss: len(sep) == 1 && indexB(s, sep[0]) < 0 ==> !found && before == s && after == ""
+
+// memberB: c occurs in chars.
+func memberB(chars string, c byte) bool { return indexB(chars, c) >= 0 }
+
+// strings.IndexAny for ASCII chars (every call site passes ASCII literals).
+//@ extern func strings.IndexAny(s string, chars string) (k int)
+//@   pure
+//@   ensures range: -1 <= k && k < len(s)
+//@   ensures hit:   k >= 0 ==> memberB(chars, s[k])
+//@   ensures first: forall j in (0, len(s)) :: (k < 0 || j < k) ==> !memberB(chars, s[j])
+
 var _ = strings.IndexByte
